@@ -125,6 +125,14 @@ def shard(ctx):
             f["rules"] = f["rules"] + [gen.rule("big%d" % i, [[gen.clause(gen.kq("nokey%d" % i, "x"), "==", ["lit", "v" * 40], msg="long message %d " % i + "m" * 60)]])
                                        for i in range(25)]
         text = gen.pfile(f)
+        if t % 4 == 1:
+            # one rule name with two definitions that both apply and come out differently (PASS and FAIL, either order): every view lists
+            # the name under both outcomes
+            dup = ["rule dupz {\n    this exists\n}\n", "rule dupz {\n    zz_nokey_dupz exists\n}\n"]
+            if rng.random() < 0.5:
+                dup.reverse()
+            text = (text + "".join(dup)) if rng.random() < 0.5 else (dup[0] + text + dup[1])
+            ctx.res.counts["programs_with_conflicting_definitions"] += 1
         check_pair(ctx, text, docs, rng)
         if t % 2 == 0:
             # several rules files x several data files: every format / entry point must give the same exit code and the same per-pair verdicts
